@@ -39,7 +39,7 @@ Print Assumptions C10_median_T1_refuted.
 
 (* ... and so does Grid::rcb on the 4x4 grid of unit weights, 2 iterations *)
 Theorem C10_gridrcb_T1_refuted : forall fuel,
-  grid_rcb cfg_old fuel 1 false [4; 4]%nat (repeat 1 16) 2 16 = OutOfFuel.
+  grid_rcb cfg_old fuel 1 I64 [4; 4]%nat (repeat 1 16) 2 16 = OutOfFuel.
 Proof. exact gridrcb_T1_stuck_4x4. Qed.
 Print Assumptions C10_gridrcb_T1_refuted.
 
@@ -56,14 +56,23 @@ Proof. exact (median_spec cfg_impl). Qed.
 Print Assumptions C10_median_spec.
 
 (* in the property's terms, when the total passed is the sum of the slab weights:
-   within 1% of half (plus one unit), or slab [p] strictly contains the half-weight mark *)
+   the low side is within 1% of half -- i64: plus one unit; f64 (weights z * 2^-k,
+   all quantities in units of 2^-k): NO unit, only the relative 2^-40 that covers the
+   rounding of the code's own two thresholds -- or slab [p] strictly contains the
+   half-weight mark.  band_of I64 = band_unit, band_of (F64 k) = band_rel 40 *)
 Theorem C10_median_balanced : forall fuel T fw ws tot p w,
   ws <> [] -> tot = sumZ ws -> 0 <= tot -> thr_ok_b fw tol tot = true ->
   median_impl fuel T fw ws tot = Ok (p, w) ->
   w = pre ws p /\ exists s, nth_opt ws p = Some s /\
-  (100 * Z.abs (2 * w - tot) <= tot + 200 \/ 2 * w < tot <= 2 * (w + s)).
+  (band_of fw tot w \/ 2 * w < tot <= 2 * (w + s)).
 Proof. exact (median_balanced cfg_impl). Qed.
 Print Assumptions C10_median_balanced.
+
+Theorem C10_band_unit : forall tot wl, band_unit tot wl <-> 100 * Z.abs (2 * wl - tot) <= tot + 200.
+Proof. exact (fun tot wl => conj (fun H => H) (fun H => H)). Qed.
+Theorem C10_band_rel : forall tot wl,
+  band_rel 40 tot wl <-> 2 ^ 40 * (100 * Z.abs (2 * wl - tot)) <= (2 ^ 40 + 1) * tot.
+Proof. exact (fun tot wl => conj (fun H => H) (fun H => H)). Qed.
 
 (* ---- Grid::rcb: no panic, no hang, boxes, path codes, balance at every cut ----
    for all 2-D / 3-D grids with sides >= 1, all non-negative weights, all
@@ -74,32 +83,46 @@ Theorem C10_gridrcb_boxes : forall fuel T fw ds ws k,
   (forall t, 0 <= t <= sumZ ws -> thr_ok_b fw tol t = true) ->
   Forall (fun s => (s < 2 ^ fuel)%nat) ds ->
   exists ids, gridrcb_impl fuel T fw ds ws k (glen ds) = Ok ids
-              /\ C10_spec bal_strong (start_of cfg_impl ds) ds ws k ids
-              /\ C10_spec bal_prop (start_of cfg_impl ds) ds ws k ids.
+              /\ C10_spec (bal_strong fw) (start_of cfg_impl ds) ds ws k ids
+              /\ C10_spec (bal_prop fw) (start_of cfg_impl ds) ds ws k ids.
 Proof. exact (gridrcb_boxes cfg_impl C10_literals). Qed.
 Print Assumptions C10_gridrcb_boxes.
 
-(* the threshold facts hold for every total weight below 2^46 (proved with
-   Flocq from the IEEE-754 meaning of the operations; classical-reals axioms) *)
-Theorem C10_thresholds : forall fw t, 0 <= t < 2 ^ 46 -> thr_ok_b fw tol t = true.
-Proof. exact thr_ok_flocq. Qed.
-Print Assumptions C10_thresholds.
+(* the threshold facts, proved with Flocq from the IEEE-754 meaning of the
+   operations (classical-reals axioms): i64 weights, every total below 2^46;
+   f64 weights z * 2^-k (k <= 1000), every total z below 2^53 *)
+Theorem C10_thresholds_i64 : forall t, 0 <= t < 2 ^ 46 -> thr_ok_b I64 tol t = true.
+Proof. exact thr_ok_flocq_i64. Qed.
+Print Assumptions C10_thresholds_i64.
+Theorem C10_thresholds_f64 : forall k t, (k <= 1000)%nat -> 0 <= t < 2 ^ 53 -> thr_ok_b (F64 k) tol t = true.
+Proof. exact thr_ok_flocq_f64. Qed.
+Print Assumptions C10_thresholds_f64.
 
-(* ... hence, unconditionally for total weights below 2^46: termination for every pool size *)
+(* total_ok I64 tot = tot < 2^46 ; total_ok (F64 k) tot = k <= 1000 /\ tot < 2^53.
+   Hence, unconditionally: termination for every pool size, *)
 Theorem C10_median_terminates_all : forall (T fuel : nat) fw ws tot,
-  ws <> [] -> 0 <= tot < 2 ^ 46 -> (Nat.log2 (length ws) + 1 <= fuel)%nat ->
+  ws <> [] -> 0 <= tot -> total_ok fw tot -> (Nat.log2 (length ws) + 1 <= fuel)%nat ->
   exists p w, median_impl fuel T fw ws tot = Ok (p, w).
 Proof. exact (median_terminates_all cfg_impl C10_literals eq_refl). Qed.
 Print Assumptions C10_median_terminates_all.
 
+(* the balance of every returned cut (f64: exact dyadic weights, no unit slack), *)
+Theorem C10_median_balanced_all : forall fuel T fw ws tot p w,
+  ws <> [] -> tot = sumZ ws -> 0 <= tot -> total_ok fw tot ->
+  median_impl fuel T fw ws tot = Ok (p, w) ->
+  w = pre ws p /\ exists s, nth_opt ws p = Some s /\
+  (band_of fw tot w \/ 2 * w < tot <= 2 * (w + s)).
+Proof. exact (median_balanced_all cfg_impl eq_refl). Qed.
+Print Assumptions C10_median_balanced_all.
+
 (* ... and the whole of Grid::rcb: *)
 Theorem C10_gridrcb_boxes_all : forall fuel T fw ds ws k,
   wf_grid ds ws -> Forall (fun s => (1 <= s)%nat) ds -> Forall (fun w => 0 <= w) ws ->
-  sumZ ws < 2 ^ 46 ->
+  total_ok fw (sumZ ws) ->
   Forall (fun s => (s < 2 ^ fuel)%nat) ds ->
   exists ids, gridrcb_impl fuel T fw ds ws k (glen ds) = Ok ids
-              /\ C10_spec bal_strong (start_of cfg_impl ds) ds ws k ids
-              /\ C10_spec bal_prop (start_of cfg_impl ds) ds ws k ids.
+              /\ C10_spec (bal_strong fw) (start_of cfg_impl ds) ds ws k ids
+              /\ C10_spec (bal_prop fw) (start_of cfg_impl ds) ds ws k ids.
 Proof. exact (gridrcb_boxes_all cfg_impl C10_literals eq_refl). Qed.
 Print Assumptions C10_gridrcb_boxes_all.
 
@@ -114,43 +137,60 @@ Theorem C10_parts_are_boxes : forall D f bal k c sub t,
 Proof. exact parts_are_boxes. Qed.
 Print Assumptions C10_parts_are_boxes.
 
-(* ---- the checker run on the implementation's outputs is sound for the property ---- *)
-Theorem C10_checker_sound : forall s ds ws k ids,
-  check_C10 s ds ws k ids = true -> C10_spec bal_prop s ds ws k ids.
-Proof. exact check_C10_sound. Qed.
+(* ---- the checker run on the implementation's outputs decides the statement ----
+   (with the clause of the weight type: bal_unit for i64, bal_rel 40 for f64) *)
+Theorem C10_checker_sound : forall fw s ds ws k ids,
+  check_C10 (bal_prop_b fw) s ds ws k ids = true -> C10_spec (bal_prop fw) s ds ws k ids.
+Proof. exact checker_sound. Qed.
 Print Assumptions C10_checker_sound.
 
-(* ... and complete: a `false` means that the output violates the statement *)
-Theorem C10_checker_complete : forall s ds ws k ids,
+Theorem C10_checker_complete : forall fw s ds ws k ids,
   (length ds = 2 \/ length ds = 3)%nat -> Forall (fun x => (1 <= x)%nat) ds -> length ws = glen ds ->
   (s < length ds)%nat ->
-  C10_spec bal_prop s ds ws k ids -> check_C10 s ds ws k ids = true.
-Proof. exact check_C10_complete. Qed.
+  C10_spec (bal_prop fw) s ds ws k ids -> check_C10 (bal_prop_b fw) s ds ws k ids = true.
+Proof. exact checker_complete. Qed.
 Print Assumptions C10_checker_complete.
+
+(* the checker of the arbitrary-fraction stream (relative allowance 2^-e, no unit) *)
+Theorem C10_checker_rel_sound : forall e s ds ws k ids,
+  check_C10 (bal_rel_b e) s ds ws k ids = true -> C10_spec (bal_rel e) s ds ws k ids.
+Proof. exact checker_rel_sound. Qed.
+Print Assumptions C10_checker_rel_sound.
 
 (* ---- non-vacuity ---- *)
 Example C10_nonvacuous_run :
-  gridrcb_impl 41 1 false [4; 4]%nat (repeat 1 16) 2 16
+  gridrcb_impl 41 1 I64 [4; 4]%nat (repeat 1 16) 2 16
   = Ok [0; 0; 1; 1; 0; 0; 1; 1; 2; 2; 3; 3; 2; 2; 3; 3]%N.
 Proof. vm_compute. reflexivity. Qed.
 Example C10_nonvacuous_hyps :
   wf_grid [4; 4]%nat (repeat 1 16) /\ Forall (fun s => (1 <= s)%nat) [4; 4]%nat
-  /\ Forall (fun w => 0 <= w) (repeat 1 16) /\ sumZ (repeat 1 16) < 2 ^ 46
+  /\ Forall (fun w => 0 <= w) (repeat 1 16) /\ total_ok I64 (sumZ (repeat 1 16))
   /\ Forall (fun s => (s < 2 ^ 3)%nat) [4; 4]%nat.
 Proof.
   split; [split; [left; reflexivity|reflexivity]|]. split; [repeat constructor|].
   split; [repeat constructor; discriminate|]. split; [reflexivity|]. repeat constructor.
 Qed.
 Example C10_checker_accepts :
-  check_C10 1 [4; 4]%nat (repeat 1 16) 2 [0; 0; 1; 1; 0; 0; 1; 1; 2; 2; 3; 3; 2; 2; 3; 3]%N = true.
+  check_C10 (bal_prop_b I64) 1 [4; 4]%nat (repeat 1 16) 2 [0; 0; 1; 1; 0; 0; 1; 1; 2; 2; 3; 3; 2; 2; 3; 3]%N = true.
 Proof. vm_compute. reflexivity. Qed.
 (* a part that is not a box / an unbalanced cut that is not next to the half-weight slab *)
 Example C10_checker_rejects_nonbox :
-  check_C10 1 [4; 4]%nat (repeat 1 16) 2 [0; 0; 1; 1; 0; 1; 0; 1; 2; 2; 3; 3; 2; 2; 3; 3]%N = false.
+  check_C10 (bal_prop_b I64) 1 [4; 4]%nat (repeat 1 16) 2 [0; 0; 1; 1; 0; 1; 0; 1; 2; 2; 3; 3; 2; 2; 3; 3]%N = false.
 Proof. vm_compute. reflexivity. Qed.
 Example C10_checker_rejects_unbalanced :
-  check_C10 1 [1; 8]%nat (repeat 1 8) 1 [0; 1; 1; 1; 1; 1; 1; 1]%N = false.
+  check_C10 (bal_prop_b I64) 1 [1; 8]%nat (repeat 1 8) 1 [0; 1; 1; 1; 1; 1; 1; 1]%N = false.
 Proof. vm_compute. reflexivity. Qed.
 Example C10_checker_accepts_bracket :   (* one heavy slab: the cut is next to it *)
-  check_C10 1 [1; 4]%nat [1; 100; 1; 1] 1 [0; 1; 1; 1]%N = true.
+  check_C10 (bal_prop_b I64) 1 [1; 4]%nat [1; 100; 1; 1] 1 [0; 1; 1; 1]%N = true.
 Proof. vm_compute. reflexivity. Qed.
+(* f64 weights 1/4, 1/4, 1/4, 1/4 (z = 1, k = 2; total 1.0) on a 1 x 4 grid: the model cuts in the
+   middle.  Below: a cut 33% off balance and not next to the half-weight slab is inside the unit
+   slack of the i64 clause but is rejected by the f64 clause (no unit) *)
+Example C10_nonvacuous_f64 :
+  gridrcb_impl 41 3 (F64 2) [1; 4]%nat [1; 1; 1; 1] 1 4 = Ok [0; 0; 1; 1]%N
+  /\ total_ok (F64 2) (sumZ [1; 1; 1; 1]).
+Proof. split; [vm_compute; reflexivity|split; [repeat constructor|reflexivity]]. Qed.
+Example C10_checker_f64_no_unit_slack :
+  check_C10 (bal_prop_b (F64 10)) 1 [1; 7]%nat [1; 1; 0; 1; 1; 1; 1] 1 [0; 0; 1; 1; 1; 1; 1]%N = false
+  /\ check_C10 (bal_prop_b I64) 1 [1; 7]%nat [1; 1; 0; 1; 1; 1; 1] 1 [0; 0; 1; 1; 1; 1; 1]%N = true.
+Proof. split; vm_compute; reflexivity. Qed.
